@@ -206,8 +206,10 @@ impl<'a> Engine<'a> {
             RUTG => self.op_rutg()?,
             RDTG => self.op_rdtg()?,
             SANGW => self.op_sangw()?,
-            // Unsupported instruction, do nothing
-            AA => {}
+            // Unsupported instruction, but FreeType still pops its argument
+            AA => {
+                self.value_stack.pop()?;
+            }
             FLIPPT => self.op_flippt()?,
             FLIPRGON => self.op_fliprgon()?,
             FLIPRGOFF => self.op_fliprgoff()?,
